@@ -34,12 +34,12 @@ NOTES = {
  "C01": "Trusted: harness generators/renderer; catch_unwind sees panics only (aborts would kill the run and be reported as harness failure); Miri slice is small. Decides only traffic the simulated controllers+transport can produce.",
  "C02": "Trusted: the resolver/matcher written from the statement (sim/src/tree.rs); trees stay inside the documented preconditions (<=1 default leaf and <=1 default branch per branch, visible names pairwise non-matching, <=12 chars).",
  "C04": "Trusted: the element renderer and the fault catalogue (each entry is a 488.2 violation by the author's reading; placements whose 488.2 status could not be settled offline are not generated: leading white space, white space inside mantissa/exponent).",
- "C05": "Trusted: SimHandler logging; formatter write-call faults go through the verif-hooks constructor (a user cannot implement Formatter today).",
- "C06": "Trusted: element renderer; raw-token pulls only (typed conversions are value-level).",
- "C10": "Trusted: datum texts are taken from the library's own stand-alone formatting (C10 is about framing, not value text); buffer handed in empty; queries always write >=1 datum.",
+ "C05": "Trusted: SimHandler logging; formatter write-call faults go through the verif-hooks constructor (a user cannot implement Formatter today). Open by the statement and accepted either way: whether the handler of the unit at which the buffer fails is entered, which of two faults of one unit is reported (DESIGN.md section 15).",
+ "C06": "Trusted: element renderer; raw-token pulls, plus typed pulls only where the conversion can never succeed for the element's type (value-level conversion is C07/C08, n/a).",
+ "C10": "Trusted: the framing model; the text of one datum is rendered by the harness for string and error-item data and taken from the library's own stand-alone formatting for the other types (C10 is about framing, not value text). Judged on messages observed to succeed; where the statement is silent (separator of a query without output, prefilled buffer) alternative predictions are accepted (DESIGN.md section 15).",
  "C11": "Trusted: the counting allocator (thread-local, armed only around library code); dispatch table for CAP in 0..=200.",
  "C12": "Trusted: the FIFO model (sim/src/model.rs).",
- "C13": "Trusted: status model; whether/where a message fails is judged by C02/C04/C05/C06, here state is compared relative to the returned result.",
+ "C13": "Trusted: status model; whether/where a message fails is judged by C02/C04/C05/C06, here state is compared relative to the returned result. Open by the statement and accepted either way (alternative predictions, DESIGN.md section 15): what an undelivered read-and-clear query consumed, whether *OPC leaves a -800 item, whether units in front of a lexical fault ran.",
  "C14": "Trusted: class table written from the statement.",
  "C15": "Trusted: latch model; PRESet/condition ambiguity resolved by adopting the observed condition value.",
  "C16": "Trusted: status-byte model; 'summary' accepted under either reading, consistently per run.",
